@@ -1115,6 +1115,9 @@ impl CanonicalizeContext {
 					let child = as_element(children[0]);
 					mathml.replace_children(child.children());
 					set_mathml_name(mathml, name(&child));
+					if mathml.attribute_value(CHANGED_ATTR) == Some(ADDED_ATTR_VALUE) {
+						mathml.remove_attribute(CHANGED_ATTR);	// was an mstyle/mpadded turned into an mrow; it now *is* the author's child
+					}
 					add_attrs(mathml, &child.attributes());
 					return Some(mathml);		// child has already been cleaned, so we can return
 				}
